@@ -475,12 +475,12 @@ def execute(scenario, prefix=()):
     return Outcome(sched, net, results)
 
 
-def explore(scenario, bound, on_outcome, max_exec=200000, free_branch=True):
+def explore(scenario, bound, on_outcome, max_exec=200000, free_branch=True, root=None, only_root_children=False, count_all=False):
     """All schedules with at most `bound` preemptions (switching away from a thread that could continue).
     on_outcome(outcome) is called for every complete execution.  Returns statistics."""
     stats = {'executions': 0, 'max_points': 0, 'branch_points': 0, 'capped': False, 'configs': set(), 'decisions': 0}
-    stack = [([], 0)]
-    seen_prefix = set()
+    stack = [root or ([], 0)]
+    root_len = len(stack[0][0])
     while stack:
         prefix, used = stack.pop()
         if stats['executions'] >= max_exec:
@@ -498,7 +498,7 @@ def explore(scenario, bound, on_outcome, max_exec=200000, free_branch=True):
         costs = []
         for i, (n, run_en, c, label) in enumerate(out.points):
             costs.append(cost)
-            if run_en and c != 0:
+            if c != 0 and (run_en or count_all):
                 cost += 1
         for i in range(len(prefix), len(out.points)):
             n, run_en, c, label = out.points[i]
@@ -506,7 +506,7 @@ def explore(scenario, bound, on_outcome, max_exec=200000, free_branch=True):
                 continue
             stats['branch_points'] += 1
             for alt in range(1, n):
-                extra = 1 if run_en else 0
+                extra = 1 if (run_en or count_all) else 0
                 if costs[i] + extra > bound:
                     continue
                 if not run_en and not free_branch:
@@ -514,3 +514,20 @@ def explore(scenario, bound, on_outcome, max_exec=200000, free_branch=True):
                 stack.append((out.choices[:i] + [alt], costs[i] + extra))
     stats['configs'] = len(stats['configs'])
     return stats
+
+
+def first_level(scenario, bound, count_all=False):
+    """The default execution plus the list of (prefix, cost) roots of all sub-trees hanging off it - used to spread one
+    exploration over worker processes: explore(root=r) for every r, plus the default execution itself."""
+    out = execute(scenario, [])
+    roots = []
+    cost = 0
+    for i, (n, run_en, c, label) in enumerate(out.points):
+        if n > 1:
+            for alt in range(1, n):
+                extra = 1 if (run_en or count_all) else 0
+                if cost + extra <= bound:
+                    roots.append((out.choices[:i] + [alt], cost + extra))
+        if c != 0 and (run_en or count_all):
+            cost += 1
+    return out, roots
